@@ -285,6 +285,14 @@ func c17Build(p *c17Prog, r *rand.Rand, variant int) (c17Case, bool) {
 				v1 += pick(r, []string{" ", "\t", "  ", " \t", "\t "})
 			}
 			al := map[string]string{"ALIAS_1": v1, "ALIAS_2": t[i+1].Text}
+			// the following word may itself be the head of a chain: replacement is repeated there too
+			last := "ALIAS_2"
+			for d, depth := 0, r.IntN(3); d < depth; d++ {
+				next := fmt.Sprintf("ALIAS_%d", 3+d)
+				al[next] = al[last]
+				al[last] = next
+				last = next
+			}
 			src := text[:t[i].Off] + "ALIAS_1 ALIAS_2" + text[p.end(i+1):]
 			plain := text
 			kind := "trailing-blank"
